@@ -1,12 +1,12 @@
 CHECK = {'rule': 'rapid-generated task programs driven directly at pipservices.Runner.Run on a bootstrapped MockupApp (terminalm, commonm, ocm, pipelinem): '
          '2-10 submissions made by one driver goroutine with generated pauses, acyclic wait lists over earlier names, bodies of 1-4 commands (probe '
          'commands with a generated duration of 0-3 ms, an optional failing probe that returns an error or appends one to its scope, nested pip:run '
-         'submissions with their own wait lists, detached submissions: a harness command that calls Runner.Run itself with the root scope / a fresh isolated child / the isolated scope of the submitter, own wait list over earlier tasks and the submitter, own body, so that the submitter can finish first and the task is registered while TasksManager.Wait is already waiting), submissions that wait for an unknown name or for themselves, two context configurations (one '
+         'submissions with their own wait lists, detached submissions: a harness command that calls Runner.Run itself with the root scope / a fresh isolated child / the isolated scope of the submitter, own wait list over earlier tasks and the submitter, own body, so that the submitter can finish first and the task is registered while TasksManager.Wait is already waiting), top-level submissions made either through Runner.Run or through the callback of the real pip:run command (own unclosed command scope, --wait text with blanks around the commas), task names from a pool with suffix/prefix/case relations (b, ab, cab, b1, ab1, B, aB, _b, a_b ...) and wait lists in both orders, submissions that wait for an unknown name or for themselves, two context configurations (one '
          'shared scope / one isolated-context child per task below the root scope that owns the task manager), GOMAXPROCS in {1,2,4,8}. Oracle: '
          'validity predicates over the sequence-numbered begin/end log written by the probes plus Task.Errors(): wait order, failed prerequisite => '
          'no event and task failed, per-body nesting/script order/stop at first failure, invalid submissions refused (top level and nested), valid '
          'ones accepted, clean task => whole body ran, errors only with a cause, TasksManager.Wait returns within 20 s, not before the last event, '
-         'with an error iff a task has errors. Non-trivial: the bodies of >=2 different top-level tasks overlap in time (from the log) and >=1 wait '
+         'with an error iff a task has errors. Second test (waitlist): the pip:run callback is called with a recording stand-in for PipRunner and generated --wait texts (1-5 related names, blanks, namespaces); the Pip.Wait it hands over must equal, as a set, the named tasks with the namespace prefix. Non-trivial: the bodies of >=2 different top-level tasks overlap in time (from the log) and >=1 wait '
          'edge between accepted tasks.',
  'assumptions': ['a watchdog of 20 s on the submissions plus TasksManager.Wait counts as "never finishes" (the statement promises progress; the work '
                  'takes milliseconds); after the first expiry in a process the shrinking attempts use 6 s, every replay uses 20 s again',
@@ -32,9 +32,27 @@ CHECK = {'rule': 'rapid-generated task programs driven directly at pipservices.R
                               'detached-registered-while-wait-is-waiting',
                               'detached-registered-during-wait-finishes-last',
                               'detached-fails',
-                              'refused:detached']},
- 'tiers': {'quick': [{'test': '^TestProp$', 'checks': 1200, 'shards': 8, 'timeout': 240, 'shrinktime': '60s'}],
-           'thorough': [{'test': '^TestProp$', 'checks': 16000, 'shards': 16, 'timeout': 3000, 'shrinktime': '120s'}]}}
+                              'refused:detached',
+                              'via-piprun',
+                              'via-runner',
+                              'piprun-wait-list>=2',
+                              'piprun-wait-list-with-blanks',
+                              'piprun-wait-list:later-name-is-suffix-of-earlier',
+                              'piprun-wait-list:earlier-name-is-suffix-of-later',
+                              'piprun-wait-list:prefix-related-names',
+                              'piprun-wait-list:names-differ-in-case-only',
+                              'waitlist:later-name-is-suffix-of-earlier',
+                              'waitlist:earlier-name-is-suffix-of-later',
+                              'waitlist:prefix-related-names',
+                              'waitlist:substring-related-names',
+                              'waitlist:names-differ-in-case-only',
+                              'waitlist:same-name-twice',
+                              'waitlist:namespaced',
+                              'waitlist:blanks']},
+ 'tiers': {'quick': [{'test': '^TestProp$', 'checks': 1200, 'shards': 8, 'timeout': 240, 'shrinktime': '60s'},
+                     {'test': '^TestPropWaitList$', 'checks': 20000, 'shards': 1, 'timeout': 120}],
+           'thorough': [{'test': '^TestProp$', 'checks': 16000, 'shards': 16, 'timeout': 3000, 'shrinktime': '120s'},
+                        {'test': '^TestPropWaitList$', 'checks': 200000, 'shards': 2, 'timeout': 600}]}}
 
 TEXT = {'technique': 'property-based testing of concurrent task programs (rapid): generated task graphs with wait lists, failing commands, nested and '
               'invalid submissions are driven at the pipeline runner of a bootstrapped app; validity predicates over the event log of harness probe '
